@@ -118,14 +118,16 @@ def gen_history(rng):
         k = rng.random()
         if k < 0.5:
             evs.append(('recv', gen_vector_spec(rng, nodes)))
-        elif k < 0.65:
+        elif k < 0.62:
             evs.append(('pub',))
+        elif k < 0.65:
+            evs.append(('pub-send-fault',))
         else:
             evs.append(('advance', rng.choice(['before', 'past', 'past', 'small', 'at'])))
     evs.append(('advance', 'past'))
     if rng.random() < 0.2:
         eq = {'kind': 'equal', 'pick': [0.9] * 6, 'delta': [1] * 6, 'unknown': None}
-        evs += [('restart',), ('recv', eq), ('idle', 400), ('recv', gen_vector_spec(rng, nodes)), ('advance', 'past')]
+        evs += [('restart',) if rng.random() < 0.5 else ('restart', 'at-once'), ('recv', eq), ('idle', 400), ('pub',), ('recv', gen_vector_spec(rng, nodes)), ('advance', 'past')]
     return {'nodes': nn, 'events': evs, 'last_used': rng.choice([0, 0, 0, 3, 3, 254, 65535, 2**32 - 2, 2**32 - 1, 2**32, 2**40 + 1]), 'publish_in_callback': rng.random() < 0.25,
             'pre_start_pubs': rng.choice([0, 0, 0, 1, 2]), 'bystander': rng.random() < 0.3}
 
@@ -133,7 +135,7 @@ def gen_history(rng):
 def gen_vector_spec(rng, nodes):
     """A vector described relative to the current local vector (resolved at run time)."""
     kind = rng.choice(['newer', 'newer', 'older', 'equal', 'identical', 'incomparable', 'unknown-node', 'self-too-much', 'self-too-much-twice', 'self-ok',
-                       'no-seq', 'no-id', 'undecodable', 'undecodable-inner', 'wrong-length', 'empty'])
+                       'no-seq', 'no-id', 'undecodable', 'undecodable-inner', 'undecodable-inner', 'wrong-length', 'empty'])
     big = rng.random() < 0.12       # sequence numbers are 64-bit: some vectors jump across the 2**16 / 2**32 width boundaries
     return {'kind': kind, 'pick': [rng.random() for _ in range(6)], 'unknown': [rng.random() < 0.5 for _ in range(4)] if rng.random() < 0.2 else None,
             'delta': [rng.choice([2**16 - 1, 2**16, 2**31, 2**32 - 1, 2**32, 2**32 + 7, 2**48, 2**63 - 1, 2**63, 2**63 + 9, 2**64 - 2]) if big and rng.random() < 0.6 else rng.randint(1, 3) for _ in range(6)]}
@@ -198,8 +200,12 @@ def resolve_vector(spec, local, self_seq, nodes):
         # one entry whose node name is internally inconsistent (last component runs past the Name element but stays inside the entry)
         # among well-formed entries that would raise the vector: the vector is not decodable, hence not an accepted vector
         bad = rc.enc_tlv(0xca, b'\x07\x04\x08\x05ab' + rc.enc_tlv(0xcc, b'\x05'))
-        v = int(spec['pick'][1] * 4)
+        v = int(spec['pick'][1] * 6)
         nm_ = rc.enc_name([C(b'n'), C(b'odd')])
+        if v == 4:
+            bad = rc.enc_tlv(0xca, nm_ + b'\xcc\x04\x00\x01')             # the sequence number declares 4 octets, 2 are left in the entry
+        elif v == 5:
+            bad = rc.enc_tlv(0xca, nm_ + rc.enc_tlv(0xcc, b'\x00\x00\x01'))   # a sequence number of 3 octets (no legal integer width)
         if v == 1:
             bad = rc.enc_tlv(0xca, rc.enc_tlv(0xcc, b'\x09') + nm_)                                  # the (critical) node name after the sequence number
         elif v == 2:
@@ -515,7 +521,10 @@ def execute(ctx, hist, rng):
             elif ev[0] == 'restart':
                 # the same instance stopped and started again: what it has learnt stays (the vector never decreases)
                 inst.stop()
-                await asyncio.sleep(0)
+                if len(ev) > 1 and ev[1] == 'at-once':
+                    ctx.event('instance-restarted-without-yielding')
+                else:
+                    await asyncio.sleep(0)
                 try:
                     inst.start(the_app)
                 except Exception as e:   # noqa
@@ -543,6 +552,31 @@ def execute(ctx, hist, rng):
                     R['sup_start'] = None
                 heard = None if inst.state != SvsState.SyncSuppression else heard
                 R['pattern'].append('i')
+            elif ev[0] == 'pub-send-fault':
+                # the transport fails transiently while the announcement of this publication is being sent (send() raises): the
+                # publication counts, and the instance goes on announcing afterwards
+                face.fail_next = OSError(105, 'No buffer space available')
+                seq = inst.new_data()
+                self_seq += 1
+                model_local[nid(SELF)] = self_seq
+                heard = None
+                await asyncio.sleep(0.05)
+                face.fail_next = None
+                take_emissions()
+                ctx.event('publication-whose-announcement-failed-in-the-transport')
+                if seq != self_seq:
+                    R['viol'].append(('publish-seq', f'new_data returned {seq}, expected {self_seq}', w))
+                t0 = S.now_ms()
+                seq = inst.new_data()
+                self_seq += 1
+                model_local[nid(SELF)] = self_seq
+                await asyncio.sleep(0.05)
+                em = take_emissions()
+                if not em:
+                    R['viol'].append(('publish-not-announced-promptly:after-a-transport-fault', 'after one announcement failed in the transport (send() raised), the next publication was not announced within 50 ms (virtual)', w))
+                else:
+                    check_emission_content(em[0][1], w)
+                R['pattern'].append('f')
             elif ev[0] == 'pub':
                 t0 = S.now_ms()
                 seq = inst.new_data()
@@ -655,7 +689,8 @@ def run(ctx):
     for k in ('suppression-entered', 'vector-heard-during-suppression', 'suppression-expiry-needed', 'suppression-expiry-not-needed',
               'periodic-expiry', 'publication', 'vector-newer', 'vector-self-too-much', 'vector-self-too-much-twice', 'vector-no-seq', 'outdated-vector-answered',
               'publication-next-to-reception', 'publication-before-start', 'instance-restarted', 'vector-with-unknown-elements-between-entries',
-              'vector-for-a-second-group-on-the-same-application', 'second-group-stopped-first-goes-on'):
+              'vector-for-a-second-group-on-the-same-application', 'second-group-stopped-first-goes-on', 'instance-restarted-without-yielding',
+              'publication-whose-announcement-failed-in-the-transport'):
         ctx.need_event(k)
     ctx.assumptions = ['when suppression is entered is read from the instance (not part of the statement)',
                        'a vector containing a malformed entry may be merged without that entry or ignored entirely',
